@@ -14,7 +14,8 @@ open ShellOp ShellOp.Util ShellOp.Patch
 
 structure S where
   cluster : Cluster := []
-  docs : List Doc := []
+  docs : List Doc := []          -- as the code sees them (after the typed decoders)
+  raw : List RawDoc := []        -- as written (with the unknown-keys flag)
   garbled : Bool := false
 
 def sortA {β : Type} (l : List (Nat × β)) : List (Nat × β) := l.mergeSort (fun a b => a.1 ≤ b.1)
@@ -45,7 +46,7 @@ def showEdit : Edit → String
   | .remove f => s!"rem.{f}"
 
 def showBody (jqOpaque : Bool) (kind : PatchKind) : Option Body → String
-  | none => "none"
+  | none => if jqOpaque && kind == .jq then "?" else "none"
   | some b =>
     if jqOpaque && kind == .jq then "?"
     else if b.isEmpty then "-" else String.intercalate "+" (b.map showEdit)
@@ -130,10 +131,14 @@ def stream (st : S) : Stream := if st.garbled then .garbled else .docs st.docs
 /-- The repaired code normalises (see `Model/Patch`). -/
 def nz : Bool := true
 
-def anyInvalid (st : S) : Bool := st.garbled || st.docs.any (fun d => !d.valid)
+/-- Documents with their validity as documented (the spec side of the oracles). -/
+def documented (st : S) : List Doc := st.raw.map (fun r => { r.doc with valid := r.documentedValid })
+
+def anyInvalid (st : S) : Bool := st.garbled || (documented st).any (fun d => !d.valid)
 
 def step (st : S) (toks : List String) : S × String :=
   match toks with
+  | "note" :: _ => (st, "ok")     -- the concrete rendering, carried along for the replay file
   | ["init", c] =>
     match cluster? c with
     | some c => ({ st with cluster := c }, s!"cluster={showCluster c}")
@@ -144,14 +149,20 @@ def step (st : S) (toks : List String) : S × String :=
     | none => (st, "bad-op")
   | ["doc", v, inl, o] =>
     match bool? v, bool? inl, op? o with
-    | some v, some inl, some o => ({ st with docs := st.docs ++ [⟨v, o, inl⟩] }, "ok")
+    | some v, some inl, some o =>
+      ({ st with docs := st.docs ++ [⟨v, o, inl⟩], raw := st.raw ++ [⟨⟨v, o, inl⟩, false⟩] }, "ok")
+    | _, _, _ => (st, "bad-op")
+  | ["doc", v, inl, o, "x"] =>      -- the document carries an unknown key
+    match bool? v, bool? inl, op? o with
+    | some v, some inl, some o =>
+      ({ st with docs := st.docs ++ [decodeRaw ⟨⟨v, o, inl⟩, true⟩], raw := st.raw ++ [⟨⟨v, o, inl⟩, true⟩] }, "ok")
     | _, _, _ => (st, "bad-op")
   | ["parse", f] =>
     match form? f with
     | none => (st, "bad-op")
     | some f =>
       let (ops, err) := parse nz f (stream st)
-      (st, if err then s!"err n={ops.length}" else s!"ok ops={showOps true ops}")
+      (st, if err then "err" else s!"ok ops={showOps true ops}")
   | ["exec", f] =>
     match form? f with
     | none => (st, "bad-op")
@@ -176,7 +187,7 @@ def step (st : S) (toks : List String) : S × String :=
     -- every operation once, in order, with its documented effect and API calls)
     match (kv? "executed" rest).bind bool?, (kv? "fail" rest).bind bool?, kv? "log" rest, kv? "cluster" rest with
     | some ex, some fail, some lg, some cl =>
-      let (wf, we, wc, wl) := Spec.expected concretePf st.garbled st.docs st.cluster
+      let (wf, we, wc, wl) := Spec.expected concretePf st.garbled (documented st) st.cluster
       let want := s!"executed={b01 we} fail={b01 wf} log={showLog wl} cluster={showCluster wc}"
       if ex == we && fail == wf && lg == showLog wl && cl == showCluster wc then (st, "true")
       else (st, "false want " ++ want)
